@@ -136,10 +136,33 @@ Definition socket_flags_shape (sk : fn_skel) : bool :=
   arg_has_vars "socket" 1 ["SOCK_DGRAM"; "SOCK_CLOEXEC"; "SOCK_NONBLOCK"] sk && arg_has_vars "send" 3 ["MSG_DONTWAIT"; "MSG_NOSIGNAL"] sk.
 
 (** devtty / devnull: one return of the file output with the parameter and a literal path *)
+(** the literal a local is initialised with / assigned once ([char const * const dest = "/dev/tty";]) *)
+Fixpoint local_literal (v : string) (body : list sstmt) : option string :=
+  match body with
+  | [] => None
+  | SDecl n _ (Some (XStr s)) :: rest => if String.eqb n v then Some s else local_literal v rest
+  | SAssign (XVar n) (XStr s) :: rest => if String.eqb n v then Some s else local_literal v rest
+  | _ :: rest => local_literal v rest
+  end.
+Definition assigned_times (v : string) (body : list sstmt) : nat :=
+  List.length (filter (fun s => match s with
+                                | SDecl n _ (Some _) => String.eqb n v
+                                | SAssign (XVar n) _ => String.eqb n v
+                                | _ => false end) body).
+Definition resolve_literal (body : list sstmt) (e : sexpr) : option string :=
+  match e with
+  | XStr s => Some s
+  | XVar v => if Nat.eqb (assigned_times v body) 1 then local_literal v body else None
+  | _ => None
+  end.
+(** exactly one path, which calls the file output once and nothing else; its arguments are the message parameter and a literal path
+    (spelled at the call or through a local that is set once) *)
 Definition file_wrapper_shape (sk : fn_skel) (path : list byte) : bool :=
-  match sk_body sk with
-  | [SReturn (Some (XCall "snoopy_output_fileoutput" [XParam 0; XStr s]))] => list_eqb (bytes s) path
-  | _ => false
+  negb (existsb s_has_other (sk_body sk)) &&
+  match io_paths sk, call_args "snoopy_output_fileoutput" sk with
+  | Some [["snoopy_output_fileoutput"]], [[XParam 0; e]] =>
+    match resolve_literal (sk_body sk) e with Some s => list_eqb (bytes s) path | None => false end
+  | _, _ => false
   end.
 
 (** error.c: the dispatch of the error record sits between "error logging := off" and "error logging := on",
@@ -167,7 +190,9 @@ Definition handler_guarded (sk : fn_skel) : bool :=
 Definition pure_syms : list string :=
   ["__ctype_b_loc"; "__errno_location"; "__isoc99_sscanf"; "sscanf"; "__xpg_strerror_r"; "strerror_r"; "calloc"; "malloc"; "free"; "memcpy"; "memset";
    "snprintf"; "strcasestr"; "strcat"; "strchr"; "strcmp"; "strdup"; "strftime"; "strlen"; "strncmp"; "strncpy"; "strndup"; "strnlen"; "strrchr";
-   "strstr"; "strtok_r"; "strtol"; "atoi"; "atol"; "sysconf"; "getenv"; "environ"; "getuid"; "geteuid"; "getgid"; "getegid"; "getsid"; "syscall"; "inet_ntop";
+   "strstr"; "strtok_r"; "strtol"; "atoi"; "atol"; "sysconf";
+   "strcspn"; "strspn"; "strpbrk"; "strsep"; "strcpy"; "stpcpy"; "strncat"; "strcasecmp"; "strncasecmp"; "strtoul"; "strtoll"; "strtoull"; "strtok";
+   "memmove"; "memchr"; "memcmp"; "memrchr"; "realloc"; "strerror"; "vsnprintf"; "sprintf"; "__ctype_tolower_loc"; "__ctype_toupper_loc"; "tolower"; "toupper"; "abs"; "labs"; "getenv"; "environ"; "getuid"; "geteuid"; "getgid"; "getegid"; "getsid"; "syscall"; "inet_ntop";
    "pthread_self"; "pthread_equal"; "pthread_once"; "pthread_atfork"; "pthread_mutex_init"; "pthread_mutex_lock"; "pthread_mutex_unlock";
    "pthread_mutexattr_init"; "pthread_mutexattr_settype"; "dlsym"; "stderr"; "clearerr"; "feof"; "ferror"].
 
@@ -196,7 +221,8 @@ Definition io_allow : list (string * list string) :=
    ("src/output/stderroutput", ["fprintf"]);
    ("src/output/stdoutoutput", ["dprintf"]);
    ("src/output/syslogoutput", ["openlog"; "syslog"; "closelog"]);
-   ("src/tsrm", ["localtime_r"]);                             (* snoopy_tsrm_localtime_r: localtime_r under the library's own mutex (thread-safe build, fix 6a78d5f); the call of the datetime model *)
+   ("src/tsrm", ["localtime_r"; "setutent"; "getutline_r"; "endutent"]);   (* thread-safe build (fixes 6a78d5f, be92640): snoopy_tsrm_localtime_r / _strftime / _getutline run the
+                                                                             libc calls of the datetime and ipaddr models under the library's own mutex; same calls, same order *)
    ("src/util/file", ["fopen"; "fread"; "fclose"]);
    ("src/util/pwd", ["getpwuid_r"]);
    ("src/util/utmp", ["setutent"; "getutline_r"; "endutent"; "utmpname"])].   (* utmpname: test helper only *)
